@@ -342,7 +342,7 @@ func (s *Sorter) SortedBlocks(ctx context.Context, removedCols map[int]struct{},
 				s.current = s.current[1:]
 				currentBlock = nil
 			}
-			if len(blkPK) == 0 {
+			if pkOK && len(blkPK) == 0 {
 				blkPK = blkPK[:len(pkIndices)]
 				copy(blkPK, rowPK)
 			}
